@@ -7,7 +7,7 @@ PID = "C03"
 RULE = ("random DAG programs (3-40 instructions, 1-6 leaves, any subset requiring grad) over ~40 tensor/nn ops, biased towards fan-out>1, the "
         "same tensor twice in one op, diamonds, multi-output ops partly consumed and unused branches; every leaf gradient is compared with the "
         "FD derivative of the whole program (full for <=64 elements, 24 coordinates + 4 directions beyond); the same DAG is rebuilt under k "
-        "random linear extensions of its dependency order and leaf gradients must agree to 1e-10; BackwardTrace checks exactly-once "
+        "random linear extensions of its dependency order and leaf gradients must agree to 1e-10; a second backward over the same graph must double every leaf gradient; BackwardTrace checks exactly-once "
         "invocation and consumer-before-operand order in every sweep; distinct key = structural hash (ops + wiring); non-trivial = at least "
         "one value consumed more than once or one op using a tensor twice, and >= 5 instructions")
 ASSUMPTIONS = ["FD reference differentiates the library's own float64 forward of the whole program",
